@@ -737,6 +737,7 @@ class Gen:
             segdefs += [{"name": "va", "bank": "ba", "start": 0xfffa}, {"name": "vb", "bank": "bb", "start": 0xfffa}]
             self.bank_vectors = {"sa": [r.randrange(0x100, 0xffff) for _ in range(3)], "sb": [r.randrange(0x100, 0xffff) for _ in range(3)]}
             where = ["sa", "sb"]
+            self.unwritten = r.random() < 0.4
         items = []
         if r.random() < 0.5:
             items.append(const("ca", self.lit(r.randrange(256))))
@@ -814,6 +815,14 @@ class Gen:
             items.append(useseg("vb", [data(2, [num(x, "hex") for x in self.bank_vectors["sb"]])]))
         files = []
         shape = r.random()
+        if banked and shape >= 0.06 and self.unwritten:
+            # segments that are not written to the file image (one or two per bank, never all three): the bank's tests see them where
+            # they run; the OTHER bank's tests must not (its code, marker byte and vectors sit at the same addresses)
+            for suffix in r.sample(["a", "b"], r.choice([1, 2, 2])):
+                for nm in r.sample(["s" + suffix, "d" + suffix, "v" + suffix], r.choice([1, 1, 2])):
+                    for d in segdefs:
+                        if d["name"] == nm:
+                            d["write"] = False
         if banked and shape < 0.06:
             # the first bank is declared with a size that reaches past $FFFF (padded file image)
             for d in segdefs:
